@@ -313,12 +313,54 @@ var c08Siblings = registerSpace(&e1Space{
 	},
 })
 
+
+// space "defsite-params": a definition site with parameters in the root layout, overridden by extending
+// templates whose definitions declare other parameter lists and defaults: the site renders the most-derived
+// definition with *that* definition's parameters and defaults.
+var c08DefSite = registerSpace(&e1Space{
+	Prop: "C08", Name: "defsite-params",
+	N: func(th bool) int64 { return int64(len(c08Perms)) * int64(len(c08Perms)) * 2 },
+	Gen: func(i int64, th bool) *rj.Program {
+		np := int64(len(c08Perms))
+		leafPerm, midPerm := c08Perms[i%np], c08Perms[(i/np)%np]
+		withMid := i/(np*np) == 1
+		names := []string{"a", "b", "c"}
+		show := func(tag string) []rj.Stmt {
+			out := []rj.Stmt{rj.T(tag + ":")}
+			for _, n := range names {
+				out = append(out, rj.T(n+"="), rj.E(&rj.Tern{C: &rj.IsSet{Args: []rj.Expr{rj.V(n)}}, A: rj.V(n), B: rj.S("-")}), rj.T(","))
+			}
+			return out
+		}
+		def := func(tag string, perm []int) *rj.BlockDef {
+			b := &rj.BlockDef{Name: "P", Body: show(tag)}
+			for _, k := range perm {
+				b.Params = append(b.Params, rj.Param{Name: names[k], Val: rj.S(tag + "-" + names[k])})
+			}
+			return b
+		}
+		base := &rj.File{Name: "/base.jet", Body: []rj.Stmt{rj.T("["), def("base", []int{0, 1, 2}), rj.T("|"), &rj.Yield{Name: "P"}, rj.T("|"), &rj.Yield{Name: "P", Args: []rj.Param{{Name: "b", Val: rj.S("arg-b")}}}, rj.T("]")}}
+		files := []*rj.File{base}
+		parent := base.Name
+		if withMid {
+			files = append(files, &rj.File{Name: "/mid.jet", Extends: parent, Body: []rj.Stmt{def("mid", midPerm)}})
+			parent = "/mid.jet"
+		} else if len(midPerm) != 0 {
+			return nil
+		}
+		files = append(files, &rj.File{Name: "/t.jet", Extends: parent, Body: []rj.Stmt{rj.T("stray"), def("leaf", leafPerm)}})
+		return &rj.Program{Files: files, Entry: "/t.jet", Mk: c08Mk}
+	},
+	Extra: e1EveryEntry,
+})
+
 func C08(r *core.Run) map[string]interface{} {
-	r.Rule = "all template sets with an extends chain of 1-3 and 0-2 imports where every non-root template defines any subset of {A,B} (plain, conditional, nested placement), x 8 positions of the yield/definition site in the root; parameter lists of 3 with every default pattern x every ordered subset of named arguments x 3 block homes; content nesting/recursion/caller-scope variants; sibling sequences (<=3 of 8 items: content that shows the enclosing pending content, wrappers with/without parameters and content, in-place definitions with/without default content, yield content) at top level and inside an outer block yielded with content; distinct = distinct reference outputs"
+	r.Rule = "all template sets with an extends chain of 1-3 and 0-2 imports where every non-root template defines any subset of {A,B} (plain, conditional, nested placement), x 8 positions of the yield/definition site in the root; parameter lists of 3 with every default pattern x every ordered subset of named arguments x 3 block homes; content nesting/recursion/caller-scope variants; definition sites with parameters overridden along the extends chain by definitions with other parameter lists and defaults; sibling sequences (<=3 of 8 items: content that shows the enclosing pending content, wrappers with/without parameters and content, in-place definitions with/without default content, yield content) at top level and inside an outer block yielded with content; distinct = distinct reference outputs"
 	runSpace(r, c08Sets)
 	runSpace(r, c08Params)
 	runSpace(r, c08Content)
 	runSpace(r, c08Siblings)
+	runSpace(r, c08DefSite)
 	return map[string]interface{}{"traces_validated_against_impl": r.Evals()}
 }
 
